@@ -26,7 +26,8 @@ def _run_test(unit, srch, env_extra, tag):
 
 
 def search(unit, srch, r):
-    env = {"VERIF_DEPTH": str(srch.get("depth", 5))}
+    depth = srch.get("depth_thorough", srch.get("depth", 5)) if os.environ.get("VERIF_TIER") == "thorough" else srch.get("depth", 5)
+    env = {"VERIF_DEPTH": str(depth)}
     env.update(srch.get("focus", {}).get(r["function"], {}))
     rc, txt, cmd = _run_test(unit, srch, env, "search-" + unit["name"])
     if rc is None:
